@@ -43,8 +43,15 @@ class Multiline:
             "Inconsistent values for header tag {} found\n".format(tagname)+
             "Previous definition: {}\n".format(prev)+
             "Current definition: {}".format(value))
+      # (the previous value is replaced by an array only if the new value
+      # can be added to it)
       prev = gfapy.FieldArray(self.get_datatype(tagname), [prev])
+      if self.vlevel > 1:
+        prev._vpush(value, datatype, tagname)
+      else:
+        prev.append(value)
       self._set_existing_field(tagname, prev)
+      return
     if self.vlevel > 1:
       prev._vpush(value, datatype, tagname)
     else:
